@@ -455,6 +455,8 @@ func (h *spawnHarness) producer(id string) actor.Producer {
 					close(g.in)
 					<-g.ch
 				}
+			case func(*actor.Context):
+				m(c)
 			case gate:
 				<-m.ch
 			case gateIn:
@@ -681,6 +683,61 @@ func runSpawns(c SCase) (map[string]int, error) {
 			m.live = false
 			m.stopped++
 			feat["lookup-while-the-actor-handles-Stopped"]++
+		case "slowkid":
+			// the holder of the id is being shut down and waits for a child whose Stopped handler
+			// blocks: it has not handled Stopped itself, it is still registered, the id is taken
+			if !m.live {
+				continue
+			}
+			pid := actor.NewPID(e.Address(), full)
+			g := &gateIn{ch: make(chan struct{}), in: make(chan struct{})}
+			spawned := make(chan struct{})
+			e.Send(pid, func(c *actor.Context) {
+				c.SpawnChildFunc(func(cc *actor.Context) {
+					if _, ok := cc.Message().(actor.Stopped); ok {
+						close(g.in)
+						<-g.ch
+					}
+				}, "slow", actor.WithID("0"))
+				close(spawned)
+			})
+			if err := waitCh(spawned, "the actor did not spawn its slow child"); err != nil {
+				return nil, err
+			}
+			ctxDone := e.Poison(pid).Done()
+			if err := waitCh(g.in, "the child never reached its Stopped handler"); err != nil {
+				return nil, err
+			}
+			h.mu.Lock()
+			g2 := &gateIn{ch: make(chan struct{}), in: make(chan struct{})}
+			h.stopGate[full] = g2 // tells whether the holder has handled Stopped
+			h.mu.Unlock()
+			close(g2.ch)
+			if err := h.spawn(op.ID, op.Child); err != nil {
+				close(g.ch)
+				return nil, err
+			}
+			wantDup[full]++
+			select {
+			case <-g2.in:
+				close(g.ch)
+				return nil, fmt.Errorf("op %d: %s handled Stopped while its child was still inside its own Stopped handler", oi, full)
+			default:
+			}
+			h.mu.Lock()
+			ran := h.calls[full] != m.calls
+			h.mu.Unlock()
+			if ran {
+				close(g.ch)
+				return nil, fmt.Errorf("op %d: %s is being shut down (it waits for a child, has not handled Stopped and is registered); a spawn of its id ran the Producer: two actors answer to one id", oi, full)
+			}
+			close(g.ch)
+			if err := waitCh(ctxDone, "stop context of "+full+" not done"); err != nil {
+				return nil, err
+			}
+			m.live = false
+			m.stopped++
+			feat["spawn-over-an-actor-that-waits-for-its-children-to-stop"]++
 		case "mass":
 			if op.N < 1 || op.N > 3000 {
 				return nil, nil
@@ -903,7 +960,7 @@ func genSpawns(t *rapid.T) SCase {
 	c := SCase{}
 	n := rapid.IntRange(1, 14).Draw(t, "ops")
 	for i := 0; i < n; i++ {
-		op := SOp{K: rapid.SampledFrom([]string{"spawn", "spawn", "spawn", "burst", "burst", "stop", "poison", "dupover", "stillborn", "slowstop"}).Draw(t, "k")}
+		op := SOp{K: rapid.SampledFrom([]string{"spawn", "spawn", "spawn", "burst", "burst", "stop", "poison", "dupover", "stillborn", "slowstop", "slowkid"}).Draw(t, "k")}
 
 		op.ID = rapid.IntRange(0, 2).Draw(t, "id")
 		op.Child = rapid.IntRange(0, 2).Draw(t, "child") == 0
